@@ -458,8 +458,11 @@ def run_scenario(sc):
                         lst = make_listener(net, name, holder, cfg)
                         if cfg.get("pattern"):
                             c.subscribe(pattern=cfg["pattern"], listener=lst)
-                        else:
+                        elif cfg.get("assign") is not None:
+                            c.assign([TopicPartition(t_, p_) for t_, p_ in cfg["assign"]])     # manual assignment
+                        elif cfg["topics"]:
                             c.subscribe(cfg["topics"], listener=lst)
+                        # else: neither subscribed nor assigned yet
                         net.ev("start_call", c=name)
                         await c.start()
                         net.ev("start_ret", c=name)
